@@ -12,23 +12,35 @@ open OpusProofs.SilkStereoMain
 theorem zp : zeroPos silk_stereo_pred_joint_iCDF = 24 ∧ zeroPos silk_uniform3_iCDF = 2 ∧ zeroPos silk_uniform5_iCDF = 4 :=
   ⟨zp_stereoJoint, zp_uniform3, zp_uniform5⟩
 
-theorem decode_any (c : Dec) :
+theorem decode_anyG (tj t3 t5 : List Nat) (hj : zeroPos tj = 24) (ht3 : zeroPos t3 = 2) (ht5 : zeroPos t5 = 4) (c : Dec) :
     ∃ n a0 b0 a1 b1 : Nat, n < 25 ∧ a0 < 3 ∧ b0 < 5 ∧ a1 < 3 ∧ b1 < 5 ∧
-      (stereoDecodePred c).1 = stereoMk n a0 b0 a1 b1 := by
-  unfold stereoDecodePred stereoDecodePredG stereoIxG
-  have h1 := sym_le c silk_stereo_pred_joint_iCDF
-  rcases e1 : sym c silk_stereo_pred_joint_iCDF with ⟨n, c1⟩
-  have h2 := sym_le c1 silk_uniform3_iCDF
-  rcases e2 : sym c1 silk_uniform3_iCDF with ⟨a0, c2⟩
-  have h3 := sym_le c2 silk_uniform5_iCDF
-  rcases e3 : sym c2 silk_uniform5_iCDF with ⟨b0, c3⟩
-  have h4 := sym_le c3 silk_uniform3_iCDF
-  rcases e4 : sym c3 silk_uniform3_iCDF with ⟨a1, c4⟩
-  have h5 := sym_le c4 silk_uniform5_iCDF
-  rcases e5 : sym c4 silk_uniform5_iCDF with ⟨b1, c5⟩
+      (stereoDecodePredG tj t3 t5 c).1 = stereoMk n a0 b0 a1 b1 := by
+  unfold stereoDecodePredG stereoIxG
+  have h1 := sym_le c tj
+  rcases e1 : sym c tj with ⟨n, c1⟩
+  have h2 := sym_le c1 t3
+  rcases e2 : sym c1 t3 with ⟨a0, c2⟩
+  have h3 := sym_le c2 t5
+  rcases e3 : sym c2 t5 with ⟨b0, c3⟩
+  have h4 := sym_le c3 t3
+  rcases e4 : sym c3 t3 with ⟨a1, c4⟩
+  have h5 := sym_le c4 t5
+  rcases e5 : sym c4 t5 with ⟨b1, c5⟩
   rw [e1] at h1; rw [e2] at h2; rw [e3] at h3; rw [e4] at h4; rw [e5] at h5
-  rw [zp.1] at h1; rw [zp.2.1] at h2 h4; rw [zp.2.2] at h3 h5
+  rw [hj] at h1; rw [ht3] at h2 h4; rw [ht5] at h3 h5
   simp only [e2, e3, e4, e5]
   exact ⟨n, a0, b0, a1, b1, by omega, by omega, by omega, by omega, by omega, rfl⟩
+
+theorem decode_any (c : Dec) :
+    ∃ n a0 b0 a1 b1 : Nat, n < 25 ∧ a0 < 3 ∧ b0 < 5 ∧ a1 < 3 ∧ b1 < 5 ∧
+      (stereoDecodePred c).1 = stereoMk n a0 b0 a1 b1 :=
+  decode_anyG _ _ _ zp.1 zp.2.1 zp.2.2 c
+
+/-- `silk_stereo_decode_mid_only` (stereo_decode_pred.c:66-73): the flag is 0 or 1 whatever the decoder state. -/
+theorem mid_only_le (c : Dec) : (stereoDecodeMidOnly c).1 ≤ 1 := by
+  unfold stereoDecodeMidOnly
+  have := sym_le c silk_stereo_only_code_mid_iCDF
+  rw [zp_stereoMid] at this
+  exact this
 
 end OpusProofs.SilkStereoSym
